@@ -76,6 +76,15 @@ Proof.
   - eauto.
 Qed.
 
+Lemma w_pres_put : forall s s' k w0, e_workers s' = upd k (fun _ => w0) (e_workers s) ->
+  (w_pc w0 <> WWait \/ w_opened w0 = true) -> w_pres s s'.
+Proof.
+  intros s s' k w0 E Hn j w' H Hp Ho. rewrite E, nth_error_upd in H. destruct (Nat.eqb k j).
+  - destruct (nth_error (e_workers s) j); cbn in H; [|discriminate]. injection H as <-.
+    destruct Hn as [Hn|Hn]; congruence.
+  - eauto.
+Qed.
+
 Lemma In_remove_nth : forall (q : list task) k t t', nth_error q k = Some t' -> In t q -> t <> t' -> In t (remove_nth k q).
 Proof.
   induction q as [|x r IH]; intros [|k] t t' Hn Hi Hne; cbn in *; try discriminate.
@@ -157,20 +166,74 @@ Proof.
   - (* a worker *)
     unfold wstep in H. destruct (nth_error (e_workers s) k) as [wk|] eqn:Ek; [|discriminate H].
     step_cases H.
-    all: intros j w Hj Hp Ho; cbn [e_workers set_workers set_next trigger set_loops e_loops] in *.
-    all: rewrite nth_error_upd in Hj; destruct (Nat.eqb_spec k j) as [Hkj|Hkj];
-         [subst j; rewrite Ek in Hj; cbn in Hj; injection Hj as <-; cbn in Hp, Ho; try discriminate Hp|].
-    all: try (destruct (HI j w Hj Hp Ho) as [lw [cid [Hlw Hin]]]; unfold get_loop in *; cbn [e_loops set_loops set_workers set_next];
-              try (rewrite nth_error_upd; destruct (Nat.eqb (w_loop wk) (w_loop w)); rewrite Hlw; cbn;
-                   eexists _, cid; split; [reflexivity|]; cbn; rewrite ?in_app_iff; auto);
-              eauto).
+    all: try (eapply Inv_q_pres; [exact HI
+             |first [apply q_pres_refl; reflexivity | eapply q_pres_upd; [reflexivity|]; intros; cbn; rewrite ?in_app_iff; auto]
+             |eapply w_pres_put; [reflexivity|cbn; first [left; discriminate|right; reflexivity]]]; fail).
     (* the worker that has just triggered its registration *)
-    cbn [w_loop]. unfold get_loop in *. cbn [e_loops set_loops set_workers set_next]. rewrite nth_error_upd, Nat.eqb_refl.
-    match goal with E : nth_error (e_loops s) (w_loop wk) = Some ?lx |- _ => rewrite E end. cbn.
-    eexists _, (e_next s). split; [reflexivity|]. cbn. rewrite in_app_iff. right. left. reflexivity.
+    intros j w Hj Hp Ho. cbn [e_workers set_workers set_next trigger set_loops] in Hj.
+    rewrite nth_error_upd in Hj. destruct (Nat.eqb_spec k j) as [Hkj|Hkj].
+    + subst j. rewrite Ek in Hj. cbn in Hj. injection Hj as <-. cbn [w_loop].
+      match goal with E : get_loop s (w_loop wk) = Some ?lx |- _ => rename E into Hlx end.
+      unfold get_loop in *. cbn [e_loops set_loops set_workers set_next trigger]. rewrite nth_error_upd, Nat.eqb_refl, Hlx. cbn.
+      eexists _, (e_next s). split; [reflexivity|]. cbn. rewrite in_app_iff. right. left. reflexivity.
+    + destruct (HI j w Hj Hp Ho) as [lw [cid [Hlw Hin]]].
+      unfold get_loop in *. cbn [e_loops set_loops set_workers set_next trigger]. rewrite nth_error_upd.
+      destruct (Nat.eqb (w_loop wk) (w_loop w)); rewrite Hlw; cbn; eexists _, cid; (split; [reflexivity|]); cbn; rewrite ?in_app_iff; auto.
 Qed.
 
 Theorem inv_q_reachable : forall s, ereachable s -> Inv_q s.
 Proof.
   apply engine_invariant; [apply Inv_q_init|]. intros s t c s' evs _ HI H. eapply Inv_q_step; eauto.
+Qed.
+
+(* ------------------------------------------------------------------ *)
+(* the positive half of one_result: a registration whose loop is still polling can complete *)
+
+Lemma exec_one : forall s t c s1 evs, estep_opt s t c = Some (s1, evs) ->
+  exec (fun_step estep) s [((t, c), evs)] (push evs s1).
+Proof.
+  intros s t c s1 evs H. change [((t, c), evs)] with ([] ++ [((t, c), evs)]).
+  eapply exec_snoc; [apply exec_nil|]. unfold fun_step, estep; cbn. rewrite H. reflexivity.
+Qed.
+
+Lemma deliver_when_opened : forall s k w, ereachable s -> nth_error (e_workers s) k = Some w ->
+  w_pc w = WWait -> w_opened w = true ->
+  exists tr s', exec (fun_step estep) s tr s' /\ count_results k (e_hist s') = 1%Z.
+Proof.
+  intros s k w Hr Hk Hp Ho.
+  assert (H : estep_opt s (TW k) CNone =
+              Some (set_workers s (upd k (fun _ => mkWk WDone (w_loop w) true (w_res w + 1)) (e_workers s)), [(TW k, KResult true)])).
+  { cbn. unfold wstep. rewrite Hk, Hp, Ho. reflexivity. }
+  eexists _, _. split; [apply exec_one; exact H|].
+  pose proof (ereachable_step _ _ _ _ _ Hr H) as Hr'.
+  assert (Hk' : nth_error (e_workers (push [(TW k, KResult true)]
+                  (set_workers s (upd k (fun _ => mkWk WDone (w_loop w) true (w_res w + 1)) (e_workers s))))) k =
+                Some (mkWk WDone (w_loop w) true (w_res w + 1))).
+  { cbn [push set_hist e_workers set_workers]. erewrite nth_error_upd_same; [reflexivity|exact Hk]. }
+  destruct (one_result _ _ _ Hr' Hk') as [A [B C]]. rewrite A. apply C. reflexivity.
+Qed.
+
+Theorem one_result_partial : forall s k w, ereachable s -> nth_error (e_workers s) k = Some w ->
+  w_pc w = WWait ->
+  (forall l, get_loop s (w_loop w) = Some l -> l_pc l = LPoll) ->
+  exists tr s', exec (fun_step estep) s tr s' /\ count_results k (e_hist s') = 1%Z.
+Proof.
+  intros s k w Hr Hk Hp Hpoll.
+  destruct (w_opened w) eqn:Ho; [eapply deliver_when_opened; eauto|].
+  destruct (inv_q_reachable _ Hr k w Hk Hp Ho) as [l [cid [Hl Hin]]].
+  apply In_nth_error in Hin. destruct Hin as [idx Hidx].
+  specialize (Hpoll l Hl).
+  (* the loop runs the registration task *)
+  destruct (apply_cb (TL (w_loop w)) (l_set_conns (l_set_q l (remove_nth idx (l_q l))) (l_conns (l_set_q l (remove_nth idx (l_q l))) ++ [cid])) cid h_none)
+    as [[l2 ev2] d] eqn:Ecb.
+  assert (H1 : exists s1 evs1, estep_opt s (TL (w_loop w)) (CRun idx h_none) = Some (s1, evs1) /\
+               e_workers s1 = upd k (fun w => mkWk (w_pc w) (w_loop w) true (w_res w)) (e_workers s)).
+  { cbn. unfold lstep. rewrite Hl, Hpoll, Hidx, Ecb. eexists _, _. split; [reflexivity|]. destruct d; reflexivity. }
+  destruct H1 as [s1 [evs1 [H1 Hw1]]].
+  pose proof (ereachable_step _ _ _ _ _ Hr H1) as Hr1.
+  assert (Hk1 : nth_error (e_workers (push evs1 s1)) k = Some (mkWk WWait (w_loop w) true (w_res w))).
+  { cbn [push set_hist e_workers]. rewrite Hw1. erewrite nth_error_upd_same; [|exact Hk]. rewrite Hp. reflexivity. }
+  destruct (deliver_when_opened _ _ _ Hr1 Hk1 eq_refl eq_refl) as [tr [s' [He Hc]]].
+  exists ([((TL (w_loop w), CRun idx h_none), evs1)] ++ tr), s'. split; [|exact Hc].
+  eapply exec_app; [apply exec_one; exact H1|exact He].
 Qed.
